@@ -509,6 +509,17 @@ example : (mkFormatterLang BS.Gen.C09.htmlDefaultCdata (some (ofS "xml")) 1 none
     (mkFormatterLang BS.Gen.C09.htmlDefaultCdata (some (ofS "XML")) 1 none).cdata = [ofS "script", ofS "style"] ∧
     (mkFormatterLang BS.Gen.C09.htmlDefaultCdata (some []) 1 none).cdata = [ofS "script", ofS "style"] := by decide
 
+/-- The defaults are the CLASS's: an instance of a subclass that overrides `HTML_DEFAULTS` at class level (`d` = its table)
+    exempts exactly `d` when the option is left at `None` — `set()` there means nothing is exempt, `<script>` included. -/
+theorem class_defaults_consulted (X : List (Nat × PStr)) (T : Tbl) (d : List PStr) (fn : Nat) (t s : PStr) :
+    (mkFormatter d false fn none).cdata = d ∧
+    (t ∉ d → formatterSubstitute T X (mkFormatter d false fn none) (some t) s =
+      formatterSubstitute T X (mkFormatter d false fn none) none s) :=
+  ⟨rfl, fun h => substitute_not_exempt X T _ t s h⟩
+
+example : formatterSubstitute BS.Gen.C09.htmlTable BS.Gen.C09.xmlTable (mkFormatter [] false 1 none) (some (ofS "script"))
+    (ofS "a<b") = ofS "a&lt;b" := by decide +kernel
+
 /-- The shipped registries: every named formatter is one of the three substitutions, with the documented exemptions. -/
 theorem named_formatters_live :
     ([ofS "minimal", ofS "html", ofS "html5", ofS "html5-4.12"].all fun nm =>
@@ -549,6 +560,14 @@ theorem formatAttribute_roundtrip (X : List (Nat × PStr)) (T : Tbl) (hx : XmlOK
     exact ⟨_, by simp [formatAttribute, hv], formatter_attr_roundtrip X T hx h h5 e he s⟩
 
 example : (AttrVal.list [ofS "a", ofS "b c"]).text = some (ofS "a b c") := by decide
+
+/-- A `<meta>` value with its charset rewritten for the output encoding is an attribute value like any other: what is read
+    back from the quoted part is the rewritten text. -/
+theorem charset_value_goes_through_formatter (X : List (Nat × PStr)) (T : Tbl) (hx : XmlOK X T = true)
+    (h : TblOK T = true) (h5 : Html5FixOK T = true) (e : RegEntry) (he : e.fn = 1 ∨ e.fn = 2 ∨ e.fn = 3)
+    (key rewritten : PStr) :
+    ∃ q, formatAttribute T X e key (.charset rewritten) = key ++ 61 :: q ∧ readAttr T q = some rewritten :=
+  formatAttribute_roundtrip X T hx h h5 e he key (.charset rewritten)
 
 /-! ## the readers are the tokenizer
 
